@@ -115,23 +115,26 @@ def rule_b(ctx):
                 early.append(F.inst[t["f"]].name)
         ctx.check(bool(drains) is False or not early, rid, "pending<%s>:no-scan-before-drain" % exf_of(p.name), "inside pending() nothing that can reach load precedes the drain",
                   p.span, early)
-        ctor = [(bb, t) for bb, t in p.calls() if (t.get("def") or "").endswith("Pending::<E>::new")]
-        ctx.check(len(ctor) == 1, rid, "pending<%s>:fresh-batch" % exf_of(p.name), "pending() returns a batch built in this call by the private constructor", p.span, len(ctor))
-    # Pending aggregates only in Pending::new with position 0
+        # a fresh batch is built in this call, after the drain (the constructor may be a private function or written out in place)
+        from .nf import NF
+        pn = NF(F, p)
+        aggs = [(bb, si, rv) for (bb, si, rv) in adt_constructions(pn, PENDING) if not pn.blocks[bb].get("dead")]
+        pdr = [bb for bb, t in pn.calls() if t.get("f") is not None and F.inst[t["f"]].kind == "foreign" and F.inst[t["f"]].symbol == "recv"]
+        pdom = cfg.dominators(pn)
+        fresh = len(aggs) >= 1 and all(any(d in pdom[bb] for d in pdr) or not pdr for (bb, si, rv) in aggs)
+        ctx.check(fresh, rid, "pending<%s>:fresh-batch" % exf_of(p.name), "pending() returns a batch built in this call, after the drain", p.span, len(aggs))
+    # Pending values are built with position 0, and only on behalf of pending()
+    from .nf import boundary_callers as _bc
     for i in F.inst:
         if i.body is None or not i.local:
             continue
         for (bb, si, rv) in adt_constructions(i, PENDING):
-            in_new = i.defp == "signal_hook::iterator::backend::Pending::<E>::new"
+            owners = {F.inst[c].defp for c in _bc(F, [i.id])}
+            in_new = owners <= {"signal_hook::iterator::backend::SignalDelivery::<R, E>::pending"}
             pos = rv["fields"].index("position") if "position" in rv["fields"] else None
             v = [fold(e) for e in flow(i).operand(rv["ops"][pos], (bb, si))] if pos is not None else None
-            ctx.check(in_new and v == [0], rid, "pending-ctor<%s>@%s" % (exf_of(i.name), keyname(i.name).split("::")[-1]), "Pending is built only by Pending::new, with position 0", rv.get("sp") or i.span,
-                      {"in": i.name, "position": v})
-    new_callers = set()
-    for i in F.inst:
-        if i.defp == "signal_hook::iterator::backend::Pending::<E>::new":
-            new_callers |= {F.inst[c].defp for (c, k, bb) in F.callers().get(i.id, [])}
-    ctx.check(new_callers <= {"signal_hook::iterator::backend::SignalDelivery::<R, E>::pending"}, rid, "pending-new-callers", "Pending::new is called only from pending()", None, sorted(new_callers))
+            ctx.check(in_new and v == [0], rid, "pending-ctor<%s>" % exf_of(i.name), "a batch is built only on behalf of pending(), with position 0", rv.get("sp") or i.span,
+                      {"in": i.name, "reached_from": sorted(owners), "position": v})
     # b3: poll_signal
     for m in poll_signals(F):
         ctx.fn(m)
@@ -241,15 +244,17 @@ def rule_d(ctx):
     ctx.rule(rid, "the slot is initialised before the action is registered: every Exfiltrator::init call in add_signal dominates the registration "
                   "call (a delivery in between would be woken for but not stored)", floor=3)
     adds = insts(F, r"^<signal_hook::iterator::backend::PendingSignals<.*> as signal_hook::iterator::backend::AddSignal>::add_signal$", "PendingSignals::add_signal", 3)
-    for a in adds:
-        ctx.fn(a)
+    from .nf import NF
+    for a0 in adds:
+        ctx.fn(a0)
+        a = NF(F, a0)
         regs = [bb for bb, t in a.calls() if (t.get("def") or "").startswith("signal_hook_registry::register")]
         inits = [(bb, t) for bb, t in a.calls() if (t.get("def") or "").endswith("Exfiltrator::init")]
         if not regs or not inits:
             raise AnchorLost("add_signal: init / registration calls")
         dom = cfg.dominators(a)
         okk = all(all(ib in dom[rb] and ib != rb for rb in regs) for ib, _ in inits)
-        ctx.check(okk, rid, "add_signal<%s>:init-before-register" % exf_of(a.name), "init(&slots[signal]) dominates register_sigaction(signal, action)", inits[0][1]["sp"],
+        ctx.check(okk, rid, "add_signal<%s>:init-before-register" % exf_of(a0.name), "init(&slots[signal]) dominates register_sigaction(signal, action)", inits[0][1]["sp"],
                   {"init": [t["sp"] for _, t in inits], "register": [a.term(b)["sp"] for b in regs]})
 
 
